@@ -698,4 +698,73 @@ def r14_11(ctx):
     return out
 
 
-RULES = [r14_1, r14_2, r14_3, r14_4, r14_5, r14_6, r14_7, r14_8, r14_9, r14_10, r14_11]
+def r14_12(ctx):
+    """abstract run (W) of PlanarCurve.__and__ itself -- starting grid, three rounds of Newton search, the two filters -- on
+    exact polynomial stand-in curves: a lens of two quadratic arcs, the second one walked the other way, so that the two
+    crossings sit at (1/4, 3/4) and (3/4, 1/4), off the diagonal of the parameter square and mirror images of each other;
+    and an arc crossed by a straight segment at (1/4, 1/2).  Exactly the crossings must come back."""
+    from rules.C18 import _PolyCv
+    out = Outcome("R14.12", "PlanarCurve.__and__ of two curved segments returns exactly their transversal crossings, wherever "
+                            "they sit in the parameter square (start pairs cover the square, not a line in it)", floor=2)
+    fn = ctx.fn("curve.PlanarCurve.__and__")
+
+    class BoxY(StandIn):
+        def __and__(self, o):
+            return self
+
+        __rand__ = __and__
+
+    class Cv(_PolyCv):
+        def box(self):
+            return BoxY()
+
+        def __eq__(self, o):
+            return self is o
+
+        def __ne__(self, o):
+            return self is not o
+
+        __hash__ = object.__hash__
+
+    def hook(rn, ev, call, name, recv, args, kwargs):
+        if name == "isinstance" and len(args) == 2 and isinstance(args[0], StandIn):
+            return True
+        return NotImplemented
+    top = [(Fr(0), Fr(0)), (Fr(2), Fr(2)), (Fr(4), Fr(0))]                 # y = x (4 - x) / 4
+    bottom_back = [(Fr(4), Fr(3, 2)), (Fr(2), Fr(-1, 2)), (Fr(0), Fr(3, 2))]   # a bowl through (3, 3/4) and (1, 3/4), from right to left
+    arc = [(Fr(0), Fr(0)), (Fr(2), Fr(4)), (Fr(4), Fr(0))]
+    a_ = _PolyCv.bezier(arc)
+    px, py = a_.at(Fr(1, 4))
+    seg = [(px - 1, py + Fr(1, 2)), (px + 1, py - Fr(1, 2))]
+    cases = [("a lens of two quadratic arcs, the second walked from right to left", top, bottom_back,
+              [(Fr(1, 4), Fr(3, 4)), (Fr(3, 4), Fr(1, 4))]),
+             ("quadratic arc (0,0),(2,4),(4,0) and a straight segment through A(1/4) at its parameter 1/2", arc, seg,
+              [(Fr(1, 4), Fr(1, 2))])]
+    for label, pa, pb, want in cases:
+        ca, cb = Cv.bezier(pa), Cv.bezier(pb)
+        for (u, v) in want:                                             # the worlds are what they say
+            assert ca.at(u) == cb.at(v), (label, u, v)
+        saved = Ev.BUDGET
+        Ev.BUDGET = 4000000
+        try:
+            got = Runner(ctx, set(), hook, asserts=True).call_fn(fn, [ca, cb])
+        except (Undecided, Raised, TypeError, ZeroDivisionError, OverflowError) as ex:
+            out.undecided(fn.qname, f"{label}: {ex}", where=fn.where())
+            continue
+        finally:
+            Ev.BUDGET = saved
+        got = [] if got is None else [tuple(q) for q in got]
+        missing = [w for w in want if not any(abs(float(q[0]) - float(w[0])) < 1e-3 and abs(float(q[1]) - float(w[1])) < 1e-3
+                                              for q in got)]
+        extra = [q for q in got if not any(abs(float(q[0]) - float(w[0])) < 1e-3 and abs(float(q[1]) - float(w[1])) < 1e-3
+                                           for w in want)]
+        if missing or extra:
+            out.bad(fn.qname, "the crossings of two curved segments are not what `&` returns", where=fn.where(),
+                    detail=f"{label}: returns {[(round(float(u), 4), round(float(v), 4)) for u, v in got]}, crossings at "
+                           f"{[(str(u), str(v)) for u, v in want]}")
+        else:
+            out.ok(fn.qname, f"{label}: {len(want)} crossing(s) returned", where=fn.where())
+    return out
+
+
+RULES = [r14_1, r14_2, r14_3, r14_4, r14_5, r14_6, r14_7, r14_8, r14_9, r14_10, r14_11, r14_12]
